@@ -12,7 +12,7 @@ class Check(EngineCheck):
     theorems = [E + "C02_once", E + "C02_create_needs_reason", E + "C02_reason_true",
                 E + "C02_interrupted_is_never_built", E + "C02_invalid_is_rule_verdict", E + "C02_computedAt_changes_only_on_change",
                 E + "C02_null_build_runs_nothing", E + "C02_null_build_after_build", E + "engine_fingerprint_matches_model",
-                E + "C09_changed_definition_reruns", E + "C09_changed_definition_signature_differs",
+                E + "C09_changed_definition_reruns", E + "C09_changed_definition_signature_differs", E + "C09_changed_definition_signature_differs_valid",
                 E + "C09_unchanged_definition_needs_other_reason"]
     mix = [(0.45, {}), (0.2, {"cancel": True}), (0.15, {"threads": True}), (0.2, {"reprogram": True})]
     budget = (300, 3000)
